@@ -551,12 +551,99 @@ pub fn run(ctx: &mut Ctx) {
 		let c = gen_random(&mut r);
 		one(ctx, "rand", i, &c, &mut cov);
 	}
+	// ---- a streaming sound whose decoder delivers nothing: the life cycle (fades, Paused, Stopped, unload) still runs
+	let ns = ctx.t(400u64, 40_000u64);
+	let mut starved = 0u64;
+	for i in 0..ns {
+		if !ctx.owns("starved", i) {
+			continue;
+		}
+		if !ctx.replaying() && !ctx.time_left(0.99) {
+			break;
+		}
+		let mut r = Rng::for_case(ctx.seed, 302, i);
+		ctx.eval();
+		crate::monitors::set_current(ctx, "starved", i, "starved streaming sound", false);
+		let res = super::guarded(|| starved_stream_case(&mut r));
+		crate::monitors::clear_current();
+		crate::hooks::gate_new_decoders(false);
+		crate::hooks::release_all();
+		match res {
+			Ok(Ok(())) => {
+				starved += 1;
+				ctx.distinct_key(0xC03_0005_0000 | (i % 61));
+			}
+			Ok(Err(e)) => ctx.violation("starved", i, &e, J::Null),
+			Err(p) => ctx.violation("starved", i, &format!("panic: {}", p.first().map(|p| p.sig()).unwrap_or_default()), J::Null),
+		}
+	}
+	ctx.count("starved_stream_cases", starved);
 	ctx.count("callbacks_observed", cov.callbacks);
 	ctx.count("distinct_state_transitions_observed", cov.transitions.len() as u64);
 	ctx.count("distinct_state_x_command_cells_observed", cov.state_cmd.len() as u64);
 	ctx.inconclusive += cov.inconclusive;
 	ctx.note(&format!("transitions observed: {:?}", cov.transitions));
 	ctx.note(&format!("(state, command kind) cells observed: {:?}", cov.state_cmd));
+}
+
+/// The decoder thread is parked before its first frame (or after a few), so the sound waits for audio data. Pause, resume
+/// and stop fades must still complete in their time: Paused / Stopped are reached and a Stopped sound is unloaded.
+fn starved_stream_case(r: &mut Rng) -> Result<(), String> {
+	let mut rig = Rig::simple(SR, CHUNK);
+	let mut track = rig.mgr.add_sub_track(TrackBuilder::new().sound_capacity(1)).map_err(|_| "track")?;
+	rig.callback(CHUNK);
+	let frames: Vec<Frame> = vec![Frame::from_mono(DC); 400];
+	let (dec, _obs) = ScriptedDecoder::new(Arc::new(frames), DecoderScript { sample_rate: SR, packets: vec![16], ..Default::default() });
+	crate::hooks::gate_new_decoders(true);
+	let st = StreamingSoundSettings::new().loop_region(..);
+	let mut h = track.play(StreamingSoundData::from_decoder(dec).with_settings(st)).map_err(|_| "play streaming")?;
+	crate::hooks::gate_new_decoders(false);
+	let dec_state = crate::hooks::last_decoder().ok_or("decoder hook not observed")?;
+	// a few frames, then nothing more
+	dec_state.allow(r.below(3) as i64 * 8);
+	for _ in 0..r.usize_in(1, 4) {
+		rig.callback(CHUNK);
+	}
+	let d_chunks = *r.pick(&DURS);
+	let tw = Tween { duration: Duration::from_secs_f64(d_chunks * CHUNK as f64 / SR as f64), ..Default::default() };
+	let budget = d_chunks.ceil() as usize + 3;
+	let what = r.below(3);
+	let mut hist = vec![];
+	if what >= 1 {
+		h.pause(tw);
+		hist.push(format!("pause({} chunks)", d_chunks));
+		for _ in 0..budget {
+			rig.callback(CHUNK);
+		}
+		if h.state() != PlaybackState::Paused {
+			return Err(format!("starved streaming sound: {} callbacks after {:?} the state is {:?}, not Paused", budget, hist, h.state()));
+		}
+	}
+	if what == 2 {
+		h.resume(tw);
+		hist.push(format!("resume({} chunks)", d_chunks));
+		for _ in 0..budget {
+			rig.callback(CHUNK);
+		}
+		if h.state() != PlaybackState::Playing {
+			return Err(format!("starved streaming sound: {} callbacks after {:?} the state is {:?}, not Playing", budget, hist, h.state()));
+		}
+	}
+	h.stop(tw);
+	hist.push(format!("stop({} chunks)", d_chunks));
+	for _ in 0..budget {
+		rig.callback(CHUNK);
+	}
+	if h.state() != PlaybackState::Stopped {
+		return Err(format!("starved streaming sound: {} callbacks after {:?} the state is {:?}, not Stopped (the stop fade did not run while the sound waited for audio data)", budget, hist, h.state()));
+	}
+	rig.callback(CHUNK);
+	rig.callback(CHUNK);
+	if track.num_sounds() != 0 {
+		return Err(format!("starved streaming sound was Stopped but not unloaded (num_sounds = {}) [{:?}]", track.num_sounds(), hist));
+	}
+	dec_state.release();
+	Ok(())
 }
 
 fn one(ctx: &mut Ctx, stream: &str, idx: u64, c: &CaseSpec, cov: &mut Cov) {
